@@ -68,6 +68,9 @@ func init() {
 			ruleC16Context(c)
 			ruleC16NoEscalate(c)
 			ruleProceedTable(c, "C16.PROCEED")
+			// the refusal is recorded in the entity bucket's error cell and returned at the end of Update:
+			// nothing written later may replace it by a success
+			ruleFirstErrorWins(c, "C16.FIRSTERR")
 			// a refusal recorded in the child's error holder must survive the hand-over to the parent context
 			ruleParentChain(c, "C16.CHAIN")
 		},
@@ -153,18 +156,32 @@ func ruleC08Once(c *Ctx) {
 	c.Analysed(FnName(lf))
 	final := p.Field("boltz", "EntityChangeState", "FinalState")
 	okLF := false
-	for _, b := range lf.Blocks {
-		for _, in := range b.Instrs {
-			if st, ok := in.(*ssa.Store); ok {
-				if f, _ := fieldOfAddr(st.Addr); sameVar(f, final) {
-					if ex, ok := st.Val.(*ssa.Extract); ok && invokeNamed(ex.Tuple.(ssa.Instruction), "FindById") {
-						okLF = true
+	whyLF := "FinalState is not loaded from the store"
+	isReload := func(in ssa.Instruction) bool {
+		if st, ok := in.(*ssa.Store); ok {
+			if f, _ := fieldOfAddr(st.Addr); sameVar(f, final) {
+				if ex, ok := st.Val.(*ssa.Extract); ok {
+					if ti, isInstr := ex.Tuple.(ssa.Instruction); isInstr && invokeNamed(ti, "FindById") {
+						return true
 					}
 				}
 			}
 		}
+		return false
 	}
-	c.Check(okLF, "C08.FINALSTATE", FnName(lf), p.Pos(lf.Pos()), "FinalState is what FindById reads back from the store", "FinalState is not loaded from the store")
+	for _, b := range lf.Blocks {
+		for _, in := range b.Instrs {
+			if isReload(in) {
+				okLF = true
+			}
+		}
+	}
+	// ... on EVERY successful path: an early return that keeps whatever FinalState already holds hands the
+	// caller's own object (which it may go on changing before the commit) to the listeners
+	if okLF && !noPathAvoidingSuccess(lf, factsOf(lf), isReload, nil) {
+		okLF, whyLF = false, "a successful return is reachable without replacing FinalState by what FindById reads back: on that path listeners are handed the caller's object instead of the stored state"
+	}
+	c.Check(okLF, "C08.FINALSTATE", FnName(lf), p.Pos(lf.Pos()), "FinalState is what FindById reads back from the store, on every successful path", whyLF)
 	// DeleteById: every change flow it collects is fired exactly once on every successful path
 	ruleC08DeleteFlows(c)
 	// fireEvents: processPreCommit then a single OnCommit registration
@@ -875,134 +892,149 @@ func ruleC16WriteOnce(c *Ctx) {
 	c.Check(okD, "C16.WRITEONCE", FnName(sb), p.Pos(sb.Pos()), "create values are written exactly on the IsCreate edge, update values on the other", "SetBaseValues does not dispatch strictly on ctx.IsCreate")
 }
 
+// c16Hooks: the three hooks of the system-entity constraint.  The rules below look at each hook as a
+// whole (its unexported helpers are expanded by the normalisation pass), so they do not depend on how the
+// decision is split between the hooks and a helper.
+func c16Hooks(c *Ctx) []*ssa.Function {
+	p := c.P
+	return []*ssa.Function{
+		p.SSAFunc(p.Method("boltz", "systemEntityConstraint", "ProcessBeforeUpdate")),
+		p.SSAFunc(p.Method("boltz", "systemEntityConstraint", "ProcessAfterUpdate")),
+		p.SSAFunc(p.Method("boltz", "systemEntityConstraint", "ProcessBeforeDelete")),
+	}
+}
+
+// ruleC16Hooks: complete decision table of each hook over (is-create, flag absent, flag value, system
+// context): a refusal is recorded in the error holder on exactly these rows —
+//
+//	ProcessBeforeUpdate: not a create, flag set, ordinary context (the update is checked against the
+//	                     STORED flag, before anything is persisted)
+//	ProcessAfterUpdate:  a create, flag set, ordinary context (after the persist the flag is readable)
+//	ProcessBeforeDelete: flag set, ordinary context
 func ruleC16Hooks(c *Ctx) {
 	p := c.P
-	check := p.Method("boltz", "systemEntityConstraint", "checkOperation")
 	isCreate := p.Field("boltz", "IndexingContext", "IsCreate")
-	facts := func(fn *ssa.Function, call ssa.CallInstruction) (t, f bool) {
-		fi := ComputeFacts(fn)
-		t = fi.HoldsWhere(call.Block(), func(ft Fact) bool {
-			ff, _ := loadedField(ft.V)
-			return ft.Kind == "true" && ft.Pol && sameVar(ff, isCreate)
-		})
-		f = fi.HoldsWhere(call.Block(), func(ft Fact) bool {
-			ff, _ := loadedField(ft.V)
-			return ft.Kind == "true" && !ft.Pol && sameVar(ff, isCreate)
-		})
-		return
+	toBool := p.Func("boltz", "FieldToBool")
+	want := []func(create bool) bool{
+		func(create bool) bool { return !create },
+		func(create bool) bool { return create },
+		func(create bool) bool { return true },
 	}
-	records := func(fn *ssa.Function) bool {
-		fi := ComputeFacts(fn)
-		for _, call := range callsIn(fn) {
-			if invokeNamed(call, "SetError") && fi.HoldsWhere(call.Block(), func(ft Fact) bool {
-				k, ok := ft.V.(*ssa.Call)
-				return ft.Kind == "nonnil" && ft.Pol && ok && isCallTo(k, check)
-			}) {
-				return true
-			}
-		}
-		return false
-	}
-	bu := p.SSAFunc(p.Method("boltz", "systemEntityConstraint", "ProcessBeforeUpdate"))
-	au := p.SSAFunc(p.Method("boltz", "systemEntityConstraint", "ProcessAfterUpdate"))
-	bd := p.SSAFunc(p.Method("boltz", "systemEntityConstraint", "ProcessBeforeDelete"))
-	for _, fn := range []*ssa.Function{bu, au, bd} {
-		c.Analysed(FnName(fn))
-	}
-	// update check: in ProcessBeforeUpdate under !IsCreate
-	okU := false
-	for _, call := range callsIn(bu) {
-		if isCallTo(call, check) {
-			if _, f := facts(bu, call); f {
-				okU = true
-			}
-		}
-	}
-	c.Check(okU && records(bu), "C16.HOOKS", FnName(bu), p.Pos(bu.Pos()), "an update is checked against the stored flag before anything is persisted, and a refusal is recorded", "updates are not checked in ProcessBeforeUpdate: the check would run after the persist (fields already written) or not at all")
-	// create check: in ProcessAfterUpdate only under IsCreate
-	okC, onlyCreate := false, true
-	for _, call := range callsIn(au) {
-		if isCallTo(call, check) {
-			t, _ := facts(au, call)
-			if t {
-				okC = true
-			} else {
-				onlyCreate = false
-			}
-		}
-	}
-	c.Check(okC && onlyCreate && records(au), "C16.HOOKS", FnName(au), p.Pos(au.Pos()), "a create is checked after the persist (the flag is then readable), only on the IsCreate edge", "ProcessAfterUpdate checks operations other than create (an update check here runs after the entity was already rewritten) or does not check creates")
-	// delete check: unconditional
-	okDel := false
-	for _, call := range callsIn(bd) {
-		if isCallTo(call, check) {
-			ri := reachWithout(bd, func(in ssa.Instruction) bool { return in == ssa.Instruction(call) })
-			okDel = true
-			for _, r := range returnsOf(bd) {
-				if ri.Reaches(r) {
-					okDel = false
+	for hi, fn := range c16Hooks(c) {
+		name := FnName(fn)
+		c.Analysed(name)
+		ok, why, rows := true, "", 0
+		undecided := ""
+		for _, create := range []bool{true, false} {
+			for _, flagNil := range []bool{true, false} {
+				for _, flag := range []bool{true, false} {
+					for _, sys := range []bool{true, false} {
+						rows++
+						oracle := func(v ssa.Value) (AV, bool) {
+							if call, isCall := v.(*ssa.Call); isCall {
+								if isCallTo(call, toBool) {
+									if flagNil {
+										return AV{Kind: "nil"}, true
+									}
+									return AV{Kind: "nonnil"}, true
+								}
+								if invokeNamed(call, "IsSystemContext") {
+									return avBool(sys), true
+								}
+								if cal, _ := calleeOf(call.Common()); cal != nil && isErrorCtor(cal) {
+									return AV{Kind: "nonnil"}, true
+								}
+							}
+							if u, isU := v.(*ssa.UnOp); isU && u.Op == token.MUL {
+								if k, isCall := u.X.(*ssa.Call); isCall && isCallTo(k, toBool) {
+									return avBool(flag), true
+								}
+								if f, _ := loadedField(u); sameVar(f, isCreate) {
+									return avBool(create), true
+								}
+							}
+							return AV{}, false
+						}
+						evs, err := DecideCalls(fn, oracle, func(ci ssa.CallInstruction) bool { return invokeNamed(ci, "SetError") })
+						if err != "" {
+							undecided = err
+							continue
+						}
+						refused := false
+						for _, ev := range evs {
+							// SetError(nil) records nothing
+							if n := len(ev.Args); n > 0 && ev.Args[n-1].Kind == "nil" {
+								continue
+							}
+							refused = true
+						}
+						wantRefused := want[hi](create) && !flagNil && flag && !sys
+						if refused != wantRefused {
+							ok = false
+							why = fmt.Sprintf("isCreate=%v flagAbsent=%v flag=%v systemContext=%v: refusal recorded=%v, expected %v", create, flagNil, flag, sys, refused, wantRefused)
+						}
+					}
 				}
 			}
 		}
+		if ok && undecided != "" {
+			c.Undecided("C16.HOOKS", name, p.Pos(fn.Pos()), "the hook's decision could not be evaluated row by row: "+undecided)
+			continue
+		}
+		c.Check(ok, "C16.HOOKS", name, p.Pos(fn.Pos()), fmt.Sprintf("records a refusal exactly when the operation is the one this hook guards, the flag is set and the context is not a system context (%d rows)", rows), why)
 	}
-	c.Check(okDel && records(bd), "C16.HOOKS", FnName(bd), p.Pos(bd.Pos()), "every delete is checked and a refusal is recorded", "deletes are not checked unconditionally")
 	c.Floor("C16.HOOKS", 3)
 }
 
+// ruleC16Decide: the flag each hook decides on is the STORED system flag as the store's flag symbol
+// evaluates it for the row (for a child store that is the parent's bucket, where the flag lives) —
+// FieldToBool applied to what the symbol's Eval returns for (ctx.Tx(), ctx.RowId).
 func ruleC16Decide(c *Ctx) {
 	p := c.P
-	fn := p.SSAFunc(p.Method("boltz", "systemEntityConstraint", "checkOperation"))
-	name := FnName(fn)
-	c.Analysed(name)
 	toBool := p.Func("boltz", "FieldToBool")
-	ok, why, rows := true, "", 0
-	for _, flagNil := range []bool{true, false} {
-		for _, flag := range []bool{true, false} {
-			for _, sys := range []bool{true, false} {
-				rows++
-				var flagPtr ssa.Value
-				oracle := func(v ssa.Value) (AV, bool) {
-					if call, isCall := v.(*ssa.Call); isCall {
-						if isCallTo(call, toBool) {
-							flagPtr = call
-							if flagNil {
-								return AV{Kind: "nil"}, true
-							}
-							return AV{Kind: "nonnil"}, true
-						}
-						if invokeNamed(call, "IsSystemContext") {
-							return avBool(sys), true
-						}
-						if cal, _ := calleeOf(call.Common()); cal != nil && isErrorCtor(cal) {
-							return AV{Kind: "nonnil"}, true
-						}
-					}
-					if u, isU := v.(*ssa.UnOp); isU && u.Op == token.MUL && flagPtr != nil && u.X == flagPtr {
-						return avBool(flag), true
-					}
-					if u, isU := v.(*ssa.UnOp); isU && u.Op == token.MUL {
-						if k, isCall := u.X.(*ssa.Call); isCall && isCallTo(k, toBool) {
-							return avBool(flag), true
-						}
-					}
-					return AV{}, false
-				}
-				res, err := Decide(fn, oracle, nil)
-				wantErr := !flagNil && flag && !sys
-				if err != "" {
-					ok, why = false, "not decidable: "+err
-					continue
-				}
-				gotErr := res[0].Kind == "nonnil"
-				if res[0].Kind != "nil" && res[0].Kind != "nonnil" {
-					ok, why = false, fmt.Sprintf("result %v", res[0])
-				} else if gotErr != wantErr {
-					ok, why = false, fmt.Sprintf("flagNil=%v flag=%v systemContext=%v: refused=%v, expected %v", flagNil, flag, sys, gotErr, wantErr)
-				}
+	rowId := p.Field("boltz", "IndexingContext", "RowId")
+	entSym := p.Iface("boltz", "EntitySymbol")
+	for _, fn := range c16Hooks(c) {
+		name := FnName(fn)
+		ok, why, n := true, "", 0
+		for _, call := range callsIn(fn) {
+			if !isCallTo(call, toBool) {
+				continue
+			}
+			n++
+			args := call.Common().Args
+			if len(args) != 2 {
+				ok, why = false, "unexpected FieldToBool call"
+				continue
+			}
+			e0, is0 := args[0].(*ssa.Extract)
+			e1, is1 := args[1].(*ssa.Extract)
+			if !is0 || !is1 || e0.Tuple != e1.Tuple || e0.Index != 0 || e1.Index != 1 {
+				ok, why = false, "the flag value at "+p.Pos(call.Pos())+" is not the (type, value) pair of one symbol evaluation"
+				continue
+			}
+			ev, isCall := e0.Tuple.(*ssa.Call)
+			if !isCall || !ev.Call.IsInvoke() || ev.Call.Method.Name() != "Eval" || !types.Implements(ev.Call.Value.Type(), entSym) {
+				ok, why = false, "the flag value at "+p.Pos(call.Pos())+" does not come from the flag symbol's Eval"
+				continue
+			}
+			if f, _ := loadedField(ev.Call.Value); f == nil {
+				ok, why = false, "the evaluated symbol at "+p.Pos(ev.Pos())+" is not the constraint's own flag symbol field"
+			}
+			if len(ev.Call.Args) != 2 {
+				ok, why = false, "unexpected Eval call"
+				continue
+			}
+			if f, _ := loadedField(ev.Call.Args[1]); !sameVar(f, rowId) {
+				ok, why = false, "the symbol is evaluated at "+p.Pos(ev.Pos())+" for "+describeValue(ev.Call.Args[1])+", not for the row the operation is about (ctx.RowId)"
 			}
 		}
+		if n == 0 {
+			ok, why = false, "the hook does not read the stored flag through the flag symbol (no FieldToBool over the symbol's Eval): a flag read from the store's own entity bucket is absent for child stores, whose flag lives in the parent's bucket"
+		}
+		c.Check(ok, "C16.DECIDE", name, p.Pos(fn.Pos()), "the decision is taken on the stored flag as the flag symbol evaluates it for ctx.RowId", why)
 	}
-	c.Check(ok, "C16.DECIDE", name, p.Pos(fn.Pos()), fmt.Sprintf("refuses exactly when the flag is set and the context is not a system context (%d rows)", rows), why)
+	c.Floor("C16.DECIDE", 3)
 }
 
 func ruleC16Context(c *Ctx) {
@@ -1093,6 +1125,19 @@ func ruleC17Lock(c *Ctx) {
 	// through a function value that stands for one ((*bbolt.DB).Update handed to a helper)
 	entersBolt := func(load ssa.Value) (bool, string) {
 		for _, r := range *load.Referrers() {
+			// db.Update taken as a method value: the handle is bound HERE, whenever the value is called later
+			if mc, isMC := r.(*ssa.MakeClosure); isMC {
+				if bf, isFn := mc.Fn.(*ssa.Function); isFn {
+					if m := methodOf(bf); m != nil && isEntry[m] {
+						for _, bnd := range mc.Bindings {
+							if bnd == load {
+								return true, m.Name() + " (bound as a method value)"
+							}
+						}
+					}
+				}
+				continue
+			}
 			call, ok := r.(ssa.CallInstruction)
 			if !ok || call.Common().IsInvoke() {
 				continue
